@@ -11,7 +11,7 @@ import Tmcg.Model.Dkg
         OUT = 1|[QUAL]|x_i|xprime_i|[C_ik…]|y|[y_i]|[z_i]|[v_i]|ck, or 0|[QUAL]|x_i|xprime_i|[C_ik…], or `-`
     dkg.sign n t p q g h m (STRONG1 WEAK1 DEV1 STRONG2 WEAK2 DEV2){n} ORACLE => OUT{n}
         (`NTS::Generate`, then `Sign(m)`; ORACLE = the `tmcg_mpz_shash(c, 2, m, r)` queries)
-        OUT = genret|signret|c|s, or `-` (died in Generate), or genret|- (died in Sign)
+        OUT = genret|signret|c|s, or `-` (died in Generate), or genret|- (died in Sign), or genret|* (DEV2 ≠ `-`)
   STRONG: the values of the party's `tmcg_mpz_srandomm(·, q)` draws, WEAK: its protocol-level
   `tmcg_mpz_wrandom_ui() % 2` draws, DEV: its deviation script (`-` = honest; items `S`, `Z,k`,
   `O,j,k,d`, `I,j,k,d`, `A,g,k,d`, `D,g,k`, `N,g,k,v` joined by `;`).
@@ -127,7 +127,9 @@ def showSign (K : Dkg.Party Dkg.GenSt) (P : Dkg.Party Dkg.SignSt) : String :=
     if K.fs.dead then "-"
     else
       let gr := showB (K.status == .ret true)
-      if P.fs.dead then s!"{gr}|-"
+      -- a party that deviates in `Sign` is out of step with the others; its own result is masked
+      if !P.dev.honest then s!"{gr}|*"
+      else if P.fs.dead then s!"{gr}|-"
       else match P.status with
         | .run => s!"{gr}|?"
         | .ret b => s!"{gr}|{showB b}|{P.st.c}|{P.st.s}"
